@@ -192,6 +192,8 @@ where
     Node: LoadableYamlNode<'input>,
 {
     fn on_event(&mut self, ev: Event<'input>, span: Span) {
+        #[cfg(feature = "verif-hooks")]
+        let is_document_end = matches!(ev, Event::DocumentEnd);
         match ev {
             Event::DocumentStart(_) | Event::Nothing | Event::StreamStart | Event::StreamEnd => {
                 // do nothing
@@ -244,6 +246,13 @@ where
                 self.insert_new_node((n.with_span(span), 0));
             }
         }
+        #[cfg(feature = "verif-hooks")]
+        saphyr_parser::verif::emit(saphyr_parser::verif::VerifEvent::LoaderEvent {
+            doc_stack: self.doc_stack.len(),
+            key_stack: self.key_stack.len(),
+            open_mappings: self.doc_stack.iter().filter(|n| n.0.is_mapping()).count(),
+            document_end: is_document_end,
+        });
     }
 }
 
